@@ -477,6 +477,22 @@ def extract_flags():
     src = inspect.getsource(dm.Manager._send_ping_reset_timer)
     flags["ping_timer_uses_delay"] = ".delay(" in src
     flags["ping_timer_uses_reset"] = ".reset(" in src
+    # C17: what `_find_shared_versions` does with the peer's (JSON) `can-dilate` value before building a set of it:
+    # does it take anything that is not a list/tuple as "no versions", and does it keep only the str entries?
+    fsv = ast.parse(textwrap.dedent(inspect.getsource(dm._find_shared_versions))).body[0]
+    req_list = False
+    for node in ast.walk(fsv):
+        if isinstance(node, ast.If):
+            t = ast.unparse(node.test).replace(" ", "")
+            if t.startswith("notisinstance(their_versions,") and "list" in t and \
+                    any(isinstance(b, ast.Assign) and ast.unparse(b.targets[0]) == "their_versions"
+                        and ast.unparse(b.value) in ("[]", "()", "list()") for b in node.body):
+                req_list = True
+    flags["shared_versions_requires_list"] = req_list
+    flags["shared_versions_filters_strings"] = any(
+        isinstance(node, (ast.SetComp, ast.ListComp, ast.GeneratorExp))
+        and any(ast.unparse(c).replace(" ", "") == "isinstance(%s,str)" % ast.unparse(g.target) for g in node.generators for c in g.ifs)
+        for node in ast.walk(fsv))
     # C17: the discipline of the ping-timer handle `Manager._timer` (None / a pending DelayedCall / one that has
     # already fired).  Does the expiry callback clear the handle?  Which of its three users ask `.active()` before
     # touching it (`.delay()` / `.cancel()` raise AlreadyCalled on a DelayedCall that has fired)?
